@@ -17,6 +17,10 @@ def main(argv):
         print(__doc__)
         return 2
     prop = argv[0].upper()
+    if prop == "SELFTEST":
+        core.bind_repo()
+        from vf import selftest
+        return selftest.main()
     tier = os.environ.get("VERIF_TIER", "quick")
     replay = None
     rest = argv[1:]
